@@ -21,7 +21,7 @@ type Func struct {
 	VarArg bool
 	Body   []*N
 	Env    *Scope
-	Host   string // "p" or "pfail" or a g* host function, "" for script functions
+	Host   string   // "p" or "pfail" or a g* host function, "" for script functions
 	HP     []string // host parameter types: any | int64 | string
 	HV     bool     // host function is variadic (last HP entry is the element type)
 }
@@ -160,13 +160,13 @@ type deferred struct {
 }
 
 type Model struct {
-	cfg    Cfg
-	out    *Outcome
-	budget int
-	inv    []*invocation
-	depth  int
-	dead   map[string]bool // names that were bound in a scope that has ended
-	live   []liveScope
+	cfg        Cfg
+	out        *Outcome
+	budget     int
+	inv        []*invocation
+	depth      int
+	dead       map[string]bool // names that were bound in a scope that has ended
+	live       []liveScope
 	inDeferred int
 }
 
